@@ -150,6 +150,11 @@ def run(ctx):
     ctx.evaluations += 2
     if why:
         ctx.problem('oracle', 'property fails on the implementation: ' + why, inputs={'suite': 'unbounded_badly_scaled'}, failing_input_found=True)
+    why = oracle_hard_instances()
+    ctx.suites['hard_instances'] = {'cases': 4, 'failure': why}
+    ctx.evaluations += 4
+    if why:
+        ctx.problem('oracle', 'property fails on the implementation: ' + why, inputs={'suite': 'hard_instances'}, failing_input_found=True)
     for name, cases, model, eqb, tout in (('sig_primal', pc, 'model_primal', 'ssig_eqb2', 'ssig'),
                                           ('sig_dual', dc, 'model_dual', 'dual_eqb', 'ssig * list Q * list Q * bool')):
         ctx.evaluations += len(cases)
@@ -210,9 +215,51 @@ def oracle_unbounded():
     return None
 
 
+def oracle_hard_instances():
+    """(a) a conditional level-1 relaxation on which ECOS struggles (MCW2019 problem 1): whatever status is reported, a reported
+    finite value is a lower bound; (b) the kernel-basis option does not turn a feasible primal problem into an infeasible one"""
+    import sageopt as so
+    import sageopt.coniclifts as cl
+    import sageopt.coniclifts.constraints.set_membership.sage_cones as sc
+    from sageopt.relaxations import sage_sigs as ss
+    with warnings.catch_warnings():
+        warnings.simplefilter('ignore')
+        y = so.standard_sig_monomials(3)
+        f = 0.5 * y[0] * y[1] ** -1 - y[0] - 5 * y[1] ** -1
+        gts = [100 - y[1] * y[2] ** -1 - y[1] - 0.05 * y[0] * y[2], y[0] - 70, y[1] - 1, y[2] - 0.5, 150 - y[0], 30 - y[1], 21 - y[2]]
+        X = ss.infer_domain(f, gts, [])
+        rs = np.random.RandomState(0)
+        pts = rs.uniform(np.log([70, 1, 0.5]), np.log([150, 30, 21]), size=(40000, 3)).T
+        ok = np.all(np.array([g(pts) for g in gts]) >= 0, axis=0)
+        fmin = float(np.min(f(pts[:, ok])))
+        vals = {}
+        for form in ('primal', 'dual'):
+            vals[form] = ss.sig_relaxation(f, X, form=form, ell=1).solve(verbose=False)
+            st, val = vals[form]
+            if st in ('solved', 'inaccurate') and isinstance(val, float) and not math.isnan(val) and val > fmin + 1e-3 * (1 + abs(fmin)):
+                return ('%s-form level-1 relaxation of MCW2019 problem 1 over its inferred domain reports (%s, %r); f = %r at a point of X'
+                        % (form, st, val, fmin))
+        saved = dict(sc.SETTINGS)
+        try:
+            y2 = so.standard_sig_monomials(2)
+            g2 = y2[0] ** 2 + y2[1] ** 2 - y2[0] - y2[1]
+            ref = ss.sig_relaxation(g2, form='dual').solve(verbose=False)
+            cl.kernel_basis_age_witnesses(True)
+            try:
+                got = ss.sig_relaxation(g2, form='primal').solve(verbose=False)
+            except RuntimeError as e:
+                got = ('refused at construction', ' '.join(str(e).split())[:60])
+        finally:
+            sc.SETTINGS.clear()
+            sc.SETTINGS.update(saved)
+        if ref[0] == 'solved' and not (got[0] == 'solved' and isinstance(got[1], float) and abs(got[1] - ref[1]) <= 1e-4 * (1 + abs(ref[1]))):
+            return ('exp(2x)+exp(2y)-exp(x)-exp(y): dual value %r; the primal form with kernel_basis=True gives %r' % (ref[1], got))
+    return None
+
+
 def search(ctx):
     from sageopt.relaxations import sage_sigs as ss
-    why = oracle_unbounded()
+    why = oracle_unbounded() or oracle_hard_instances()
     if why:
         return {'suite': 'unbounded_badly_scaled', 'property_failure': why}
     for _ in range(60):
